@@ -1,6 +1,7 @@
 package props
 
 import (
+	"context"
 	"fmt"
 	"html/template"
 	"path/filepath"
@@ -131,7 +132,7 @@ func init() {
 			return s
 		},
 		Run:  c17Run,
-		Rule: "(partial) 11 bodies (text, output tags of outer/data names, loop, conditional, let inside, counting marker, quotes/backslash, nested partial, nested partial with layout) x 7 data maps (none, empty, shadowing an outer name, fresh name, both, shadowing with nil, nil + fresh) x layout {none, layout, layout whose template itself uses a partial with a layout, .js layout} x content type {unset, text/html, application/javascript} x partial name extension {.html, .js, none} x position (top level, inside for, inside if, inside a helper block, inside a user function): output equals the composition at string level of the same sources rendered by plush itself as standalone templates in the equivalent scope (JS case: JSEscapeString of it), a counting marker shows every insertion happened exactly once. (content) every sequence of <=4 items from {contentFor(c1){…}, contentFor(c2){…}, contentOf(c1|c2|undefined) with/without data and with/without default block}: contentFor emits nothing where defined, each contentOf emits the stored block rendered with its data in a child of the definition scope (or its default block, or the render fails when undefined), later definitions win. (absolute) 14 compositions with literal expectations: partials nested two and three deep inside a partial that was given a layout (only that partial is wrapped); a list printed by an output tag and modified later in the same block (if / helper / contentFor / function / for body: printed as it was at the tag, like inline); a time printed inside blocks whose own context carries a TIME_FORMAT (contentOf data, default block, BlockWith(child)); empty blocks (a block helper with an empty / comment-only / silent block has a block that renders to nothing; empty contentOf default and contentFor blocks), outer variables, variables and data named like built-in helpers, data overriding and sibling isolation through partials nested three deep, layout of a nested partial, contentFor inside a partial, block helper inside a partial inside a loop. (blocks) block helpers using Block() / BlockWith(child) / calling Block() twice over the same bodies and placements: the string the helper received equals the inline rendering. Non-trivial: all cases with a non-text body or data.",
+		Rule: "(partial) 11 bodies (text, output tags of outer/data names, loop, conditional, let inside, counting marker, quotes/backslash, nested partial, nested partial with layout) x 7 data maps (none, empty, shadowing an outer name, fresh name, both, shadowing with nil, nil + fresh) x layout {none, layout, layout whose template itself uses a partial with a layout, .js layout} x content type {unset, text/html, application/javascript} x partial name extension {.html, .js, none} x position (top level, inside for, inside if, inside a helper block, inside a user function): output equals the composition at string level of the same sources rendered by plush itself as standalone templates in the equivalent scope (JS case: JSEscapeString of it), a counting marker shows every insertion happened exactly once. (content) every sequence of <=4 items from {contentFor(c1){…}, contentFor(c2){…}, contentOf(c1|c2|undefined) with/without data and with/without default block}: contentFor emits nothing where defined, each contentOf emits the stored block rendered with its data in a child of the definition scope (or its default block, or the render fails when undefined), later definitions win. (absolute) 15 compositions (incl. a name carried by a wrapped Go context read in partials, a layout, nested partials, stored and default blocks) with literal expectations: partials nested two and three deep inside a partial that was given a layout (only that partial is wrapped); a list printed by an output tag and modified later in the same block (if / helper / contentFor / function / for body: printed as it was at the tag, like inline); a time printed inside blocks whose own context carries a TIME_FORMAT (contentOf data, default block, BlockWith(child)); empty blocks (a block helper with an empty / comment-only / silent block has a block that renders to nothing; empty contentOf default and contentFor blocks), outer variables, variables and data named like built-in helpers, data overriding and sibling isolation through partials nested three deep, layout of a nested partial, contentFor inside a partial, block helper inside a partial inside a loop. (blocks) block helpers using Block() / BlockWith(child) / calling Block() twice over the same bodies and placements: the string the helper received equals the inline rendering. Non-trivial: all cases with a non-text body or data.",
 		Bound: func(th bool) string {
 			if th {
 				return "all listed combinations; content programs of <=5 items"
@@ -316,6 +317,28 @@ func c17Absolute(t *engine.T) {
 		{"an empty default block of contentOf renders to nothing", `A<%= contentOf("undefined") { %><% } %>B<%= contentOf("undef2", {"a": 1}) { } %>C<%= contentOf("undef3") {} %>D`, "ABCD"},
 		{"an empty contentFor block renders to nothing", `<% contentFor("e1") { %><% } %><% contentFor("e2") {} %>A<%= contentOf("e1") %>B<%= contentOf("e2") { %>default<% } %>C`, "ABC"},
 	}
+	t.Case("absolute names of a wrapped Go context reach partials, layouts and stored blocks", true, func() (string, *engine.Fail) {
+		plush.CacheEnabled = false
+		ctx := plush.NewContextWithContext(context.WithValue(context.Background(), "user", "Ann"))
+		ctx.Set("partialFeeder", func(name string) (string, error) {
+			switch name {
+			case "hi":
+				return `Hi <%= user %>!`, nil
+			case "lay":
+				return `<l for="<%= user %>"><%= yield %></l>`, nil
+			case "deep":
+				return `{<%= partial("hi") %>}`, nil
+			}
+			return "", fmt.Errorf("no partial %q", name)
+		})
+		src := `Hi <%= user %>!|<%= partial("hi") %>|<%= partial("hi", {"layout": "lay"}) %>|<%= partial("deep") %>|<% contentFor("c") { %>Hi <%= user %>!<% } %><%= contentOf("c") %>|<%= contentOf("c", {"x": 1}) %>|<%= contentOf("undefined") { %>Hi <%= user %>!<% } %>`
+		want := `Hi Ann!|Hi Ann!|<l for="Ann">Hi Ann!</l>|{Hi Ann!}|Hi Ann!|Hi Ann!|Hi Ann!`
+		out, err := plush.Render(src, ctx)
+		if err != nil || out != want {
+			return "", engine.Failf("mismatch", "expected %q, got %q / %v", want, out, err)
+		}
+		return "equal-expected", nil
+	})
 	for _, c := range cases {
 		c := c
 		t.Case("absolute "+c.name+" "+q(c.src), true, func() (string, *engine.Fail) {
